@@ -4,6 +4,7 @@ import (
 	"fmt"
 	"os"
 	"sort"
+	"sync"
 )
 
 // WriteRec is one journal entry of the simulated disk.
@@ -29,6 +30,7 @@ type DiskPlan struct {
 // (silently lost or misdirected writes) is not simulated, because no code that only calls
 // WriteFile could satisfy C20 against it.
 type Disk struct {
+	mu      sync.Mutex // dst has no goroutines of its own; should a change give it some, their writes must not crash the harness
 	Files   map[string][]byte
 	Journal []WriteRec
 	Plan    *DiskPlan
@@ -39,6 +41,8 @@ type Disk struct {
 func NewDisk() *Disk { return &Disk{Files: map[string][]byte{}} }
 
 func (d *Disk) WriteFile(name string, data []byte, perm os.FileMode) error {
+	d.mu.Lock()
+	defer d.mu.Unlock()
 	d.Writes++
 	rec := WriteRec{Seq: d.Writes, Path: name, Data: append([]byte(nil), data...), Perm: perm, Outcome: "ok"}
 	if d.Plan != nil && d.Plan.KthWrite == d.Writes {
@@ -61,8 +65,43 @@ func (d *Disk) WriteFile(name string, data []byte, perm os.FileMode) error {
 	return nil
 }
 
+// View returns a consistent copy of the whole disk state (files, journal, counters, plan).
+func (d *Disk) View() *Disk {
+	d.mu.Lock()
+	defer d.mu.Unlock()
+	v := &Disk{Files: map[string][]byte{}, Writes: d.Writes, Fired: d.Fired, Plan: d.Plan}
+	for k, b := range d.Files {
+		v.Files[k] = append([]byte(nil), b...)
+	}
+	v.Journal = append([]WriteRec(nil), d.Journal...)
+	return v
+}
+
+// SetPlan arms (or clears) the write fault.
+func (d *Disk) SetPlan(p *DiskPlan) {
+	d.mu.Lock()
+	d.Plan = p
+	d.mu.Unlock()
+}
+
+// ResetFired clears the fired counter.
+func (d *Disk) ResetFired() {
+	d.mu.Lock()
+	d.Fired = 0
+	d.mu.Unlock()
+}
+
+// Put stores a file without journaling it (initial disk contents).
+func (d *Disk) Put(name string, data []byte) {
+	d.mu.Lock()
+	d.Files[name] = append([]byte(nil), data...)
+	d.mu.Unlock()
+}
+
 // Snapshot returns a copy of the file map.
 func (d *Disk) Snapshot() map[string][]byte {
+	d.mu.Lock()
+	defer d.mu.Unlock()
 	out := map[string][]byte{}
 	for k, v := range d.Files {
 		out[k] = append([]byte(nil), v...)
@@ -71,6 +110,8 @@ func (d *Disk) Snapshot() map[string][]byte {
 }
 
 func (d *Disk) Paths() []string {
+	d.mu.Lock()
+	defer d.mu.Unlock()
 	var ps []string
 	for p := range d.Files {
 		ps = append(ps, p)
